@@ -46,6 +46,10 @@ type Options struct {
 	Batch  int    // batch index (key derivation)
 	Notary bool   // P2PSigExtensions
 	Log    io.Writer
+	// Store: use this store instead of a fresh MemoryStore (dump-based worlds).
+	Store storage.Store
+	// NoFunding: skip the initial funding of the neutral payer (reopened stores).
+	NoFunding bool
 }
 
 // Deployed describes a deployed contract.
@@ -201,7 +205,11 @@ func New(o Options) (*World, error) {
 		MaxValidUntilBlockIncrement: 100000,
 		MemPoolSize:                 1000,
 	}}
-	bc, err := core.NewBlockchain(storage.NewMemoryStore(), cfg, zap.NewNop())
+	var st storage.Store = storage.NewMemoryStore()
+	if o.Store != nil {
+		st = o.Store
+	}
+	bc, err := core.NewBlockchain(st, cfg, zap.NewNop())
 	if err != nil {
 		return nil, err
 	}
@@ -233,6 +241,13 @@ func New(o Options) (*World, error) {
 	}
 	if o.Log != nil {
 		w.log = bufio.NewWriter(o.Log)
+	}
+	if o.NoFunding {
+		// continue the virtual clock after the existing chain
+		if hdr, err := bc.GetHeader(bc.GetHeaderHash(bc.BlockHeight())); err == nil && hdr.Timestamp >= w.Now {
+			w.Now = hdr.Timestamp + w.Step
+		}
+		return w, nil
 	}
 	// fund the neutral payer from the validators' account (the genesis holder)
 	r := w.invokeRaw([]SignerSpec{G(w.Validator)}, w.GAS, "transfer", []any{w.Validator.ScriptHash(), w.Payer.ScriptHash(), int64(20_000_000_0000_0000), nil}, true)
@@ -696,7 +711,24 @@ func (w *World) DeployFrom(sender neotest.Signer, name string, a *Artifact, data
 	return d, nil
 }
 
-// Refresh re-reads the artifact of a deployed contract after an update.
+// Adopt registers an already deployed contract (by hash) under a name.
+func (w *World) Adopt(name string, h util.Uint160) (*Deployed, error) {
+	cs := w.Chain.GetContractState(h)
+	if cs == nil {
+		return nil, fmt.Errorf("adopt %s: no contract %s", name, h.StringLE())
+	}
+	a, err := NewArtifact(name, &cs.NEF, &cs.Manifest)
+	if err != nil {
+		return nil, err
+	}
+	d := &Deployed{Name: name, Hash: h, ID: cs.ID, Art: a}
+	w.C[name] = d
+	w.ByH[h] = d
+	w.trackID(cs.ID)
+	return d, nil
+}
+
+// H returns the hash of a named deployed contract.
 func (w *World) H(name string) util.Uint160 {
 	d := w.C[name]
 	if d == nil {
